@@ -9,7 +9,7 @@
   The file-level integrity check (`ltx.Decoder.Verify`) is an oracle of the harness, not modelled.
 -/
 import LiteFSVerif.Proofs.Image
-import LiteFSVerif.Model.Engine
+import LiteFSVerif.Proofs.Engine
 
 set_option linter.unusedSimpArgs false
 
@@ -42,52 +42,86 @@ def absTx (f : LTXFile) : Tx :=
     pages := f.pages.map fun p => (p.1, BA.pageChk p.1 p.2) }
 
 /-- `WriteLTXFileAt` (stream / forwarding path) accepts a non-snapshot file only if it extends
-    the node's exact position; otherwise the state is unchanged -/
+    the node's exact position -/
 theorem C09_writeLTX_extends (s s' : Eng) (f : LTXFile) (h : writeLTXFile s f = .ok s') (hn : f.minTxid ≠ 1) :
     f.minTxid = s.posTxid + 1 ∧ f.pre = s.posChk ∧ s'.ltx = addLTX s.ltx f := by
   unfold writeLTXFile at h
-  simp only [hn, ne_eq, not_false_eq_true, if_true, if_false] at h
-  by_cases h1 : f.minTxid = s.posTxid + 1
-  · by_cases h2 : f.pre = s.posChk
-    · simp [h1, h2, pure, Except.pure, bind, Except.bind] at h
-      exact ⟨h1, h2, by rw [← h]⟩
-    · simp [h1, h2, fail, bind, Except.bind] at h
-  · simp [h1, fail, bind, Except.bind] at h
+  obtain ⟨_, ha, h⟩ := M_bind_ok h
+  obtain ⟨_, hb, h⟩ := M_bind_ok h
+  have ha := ensure_ok ha
+  have hb := ensure_ok hb
+  simp only [pure, Except.pure, hn, if_false] at h
+  injection h with h
+  subst h
+  exact ⟨by rcases ha with e | e; exact absurd e hn; exact e, by rcases hb with e | e; exact absurd e hn; exact e, rfl⟩
 
+/-- ... otherwise it is rejected and the state is exactly what it was -/
 theorem C09_writeLTX_rejected_unchanged (s : Eng) (f : LTXFile) (hn : f.minTxid ≠ 1)
     (hbad : f.minTxid ≠ s.posTxid + 1 ∨ f.pre ≠ s.posChk) :
     writeLTXFile s f = .error (s, .rejected) := by
   unfold writeLTXFile
-  simp only [hn, ne_eq, not_false_eq_true, if_true]
-  rcases hbad with h | h
-  · simp [h, fail, bind, Except.bind]
-  · by_cases h1 : f.minTxid = s.posTxid + 1
-    · simp [h1, h, fail, bind, Except.bind, pure, Except.pure]
-    · simp [h1, fail, bind, Except.bind]
+  by_cases h1 : f.minTxid = s.posTxid + 1
+  · have h2 : f.pre ≠ s.posChk := by rcases hbad with h | h; exact absurd h1 h; exact h
+    rw [ensure_pos (Or.inr h1), M_ok_bind, ensure_neg (by simp [hn, h2])]
+    rfl
+  · rw [ensure_neg (by simp [hn, h1])]
+    rfl
 
 /-- a snapshot (`min = 1`) replaces the whole log -/
 theorem C09_writeLTX_snapshot (s s' : Eng) (f : LTXFile) (h : writeLTXFile s f = .ok s') (hs : f.minTxid = 1) :
     s'.ltx = [f] := by
   unfold writeLTXFile at h
-  simp [hs, pure, Except.pure, bind, Except.bind] at h
-  rw [← h]
-  simp [hs, addLTX, addLTX.ins]
+  obtain ⟨_, _, h⟩ := M_bind_ok h
+  obtain ⟨_, _, h⟩ := M_bind_ok h
+  simp only [pure, Except.pure, hs, if_true] at h
+  injection h with h
+  subst h
+  simp [addLTX, addLTX.ins]
 
 /-- `Drop` appends exactly one tombstone extending the position and moves the position to it -/
 theorem C09_drop (s s' : Eng) (h : drop s = .ok s') :
     ∃ f, s'.ltx = addLTX s.ltx f ∧ f.minTxid = s.posTxid + 1 ∧ f.maxTxid = s.posTxid + 1 ∧ f.pre = s.posChk ∧
       f.post = Cks.flag ∧ f.commit = 0 ∧ s'.posTxid = f.maxTxid ∧ s'.posChk = f.post := by
   unfold drop at h
-  by_cases hp : s.primary
-  · simp only [hp, Bool.not_true, Bool.false_eq_true, if_false, bind, Except.bind, pure, Except.pure] at h
-    split at h
-    · simp [fail] at h
-    · split at h
-      · simp [fail] at h
-      · injection h with h
-        refine ⟨{ minTxid := s.posTxid + 1, maxTxid := s.posTxid + 1, pre := s.posChk, post := Cks.flag, commit := 0,
-                  pageSize := s.pageSize, pages := [] }, ?_, rfl, rfl, rfl, rfl, rfl, ?_, ?_⟩ <;> rw [← h]
-  · simp [hp, fail, bind, Except.bind] at h
+  obtain ⟨_, _, h⟩ := M_bind_ok h
+  obtain ⟨_, _, h⟩ := M_bind_ok h
+  obtain ⟨_, _, h⟩ := M_bind_ok h
+  simp only [pure, Except.pure] at h
+  injection h with h
+  subst h
+  exact ⟨{ minTxid := s.posTxid + 1, maxTxid := s.posTxid + 1, pre := s.posChk, post := Cks.flag, commit := 0,
+           pageSize := s.pageSize, pages := [] }, rfl, rfl, rfl, rfl, rfl, rfl, rfl, rfl⟩
+
+/-- engine: local commits (both journal modes) add exactly one file that extends the position -/
+theorem C09_journal_commit_extends (s s' : Eng) (mode : Nat) (h : commitJournalValid s mode = .ok s') :
+    ∃ f : LTXFile, s'.ltx = addLTX s.ltx f ∧ f.minTxid = s.posTxid + 1 ∧ f.pre = s.posChk ∧
+      s'.posTxid = f.maxTxid ∧ s'.posChk = f.post := by
+  obtain ⟨f, h1, h2, h3, h4, h5, h6, _⟩ := commitJournalValid_shape s s' mode h
+  exact ⟨f, h1, h2, h4, by rw [h6, h3], h5.symm⟩
+
+theorem C09_wal_commit_extends (s s' : Eng) (h : commitWALBody s = .ok s') (hne : s' ≠ s) :
+    ∃ f : LTXFile, s'.ltx = addLTX s.ltx f ∧ f.minTxid = s.posTxid + 1 ∧ f.pre = s.posChk ∧
+      s'.posTxid = f.maxTxid ∧ s'.posChk = f.post := by
+  rcases commitWAL_shape s s' h with e | ⟨f, h1, h2, h3, h4, h5, h6, _⟩
+  · exact absurd e hne
+  · exact ⟨f, h1, h2, h4, by rw [h6, h3], h5.symm⟩
+
+/-- retention (engine model) never removes the newest file -/
+theorem C09_retention_keeps_newest (s : Eng) (f : LTXFile) (h : s.ltx.getLast? = some f) :
+    f ∈ (enforceRetention s).ltx := by
+  unfold enforceRetention
+  simp only [List.mem_map, List.mem_filter]
+  have hne : s.ltx ≠ [] := by intro e; simp [e] at h
+  have hlast : s.ltx.getLast hne = f := by
+    have := List.getLast?_eq_getLast hne; rw [this] at h; injection h
+  refine ⟨(f, s.ltx.length - 1), ⟨?_, ?_⟩, rfl⟩
+  · rw [List.mem_iff_getElem]
+    have hl : 0 < s.ltx.length := List.length_pos_iff.mpr hne
+    refine ⟨s.ltx.length - 1, by simp; omega, ?_⟩
+    simp [List.getElem_zipIdx]
+    rw [← hlast, List.getLast_eq_getElem]
+  · have hl : 0 < s.ltx.length := List.length_pos_iff.mpr hne
+    simp; omega
 
 /-! ### non-vacuity -/
 example : chainOK [⟨1, 1, 0, 5, 1, []⟩, ⟨2, 2, 5, 7, 1, []⟩, ⟨3, 4, 7, 9, 2, []⟩] = true := by decide
